@@ -128,6 +128,10 @@ Section Model.
               end
     end.
 End Model.
+Arguments mkSm {N}. Arguments sm_speeds {N}. Arguments sm_su {N}. Arguments sm_du {N}. Arguments sm_tu {N}.
+Arguments sm_max {N}. Arguments sm_dslot {N}. Arguments sm_dfunit {N}. Arguments sm_tslot {N}. Arguments sm_tfunit {N}.
+Arguments TDistance {N} m. Arguments TSpeed {N} m.
+Arguments Dijkstra {N}. Arguments AStar {N} wf.
 
 (* CostModelService::build: a value given in the query replaces the configured one *)
 Definition effective {A} (query : option A) (configured : A) : A :=
